@@ -35,14 +35,10 @@ static std::string inputBytes(const Cex &c, const char *key, size_t len)
     return s;
 }
 
-static int replayInt64(const Cex &c)
+// returns 0 ok, 1 postcondition violated, 3 input skipped (known finding F1 domain, only when skipMin)
+static int runInt64(const std::string &in, int base, const bool allowSign, const bool skipMin, const bool quiet = false)
 {
-    size_t len = (size_t)c.num("len", 0);
-    if (c.has("text")) len = c.kv.at("text").size();
-    const std::string in = inputBytes(c, "buf", len);
-    if (in.size() != len || len == 0) { printf("counterexample carries no input bytes\n"); return 0; }
-    int base = (int)c.num("base", 10);
-    const bool allowSign = c.num("allowSign", 0) != 0;
+    const size_t len = in.size();
     // reference
     size_t p = 0; bool neg = false, preOk = true; int eb = base;
     if (allowSign) { if (in[0] == '-') { neg = true; p = 1; } else if (in[0] == '+') p = 1; if (p >= len) preOk = false; }
@@ -51,14 +47,16 @@ static int replayInt64(const Cex &c)
         if (eb == 0) eb = (p < len && in[p] == '0') ? 8 : 10;
         if (p >= len) preOk = false;
     }
-    size_t K = 0; ru128 v = 0;
+    size_t K = 0; ru128 v = 0; bool hitsMin = false;
     while (preOk && p + K < len && digitOf((unsigned char)in[p + K]) < (unsigned)eb) {
         if (v < HUGE_) v = v * eb + digitOf((unsigned char)in[p + K]);
         ++K;
+        if (neg && v == ((ru128)1 << 63)) hitsMin = true;
     }
+    if (skipMin && hitsMin) return 3;
     const ru128 lim = neg ? ((ru128)1 << 63) : ((ru128)1 << 63) - 1;
     const bool specOk = preOk && K >= 1 && v <= lim;
-    printf("input=\"%s\" len=%zu base=%d allowSign=%d: reference %s, digits=%zu prefix=%zu\n", in.c_str(), len, base, allowSign,
+    if (!quiet) printf("input=\"%s\" len=%zu base=%d allowSign=%d: reference %s, digits=%zu prefix=%zu\n", in.c_str(), len, base, allowSign,
            specOk ? "ACCEPT" : "REJECT", K, p);
     fflush(stdout);
     // the real thing (UBSan aborts on signed overflow inside)
@@ -66,12 +64,46 @@ static int replayInt64(const Cex &c)
     int64_t result = 0x5a5a5a5a5a5a5a5aL;
     const bool ok = tok.int64(result, base, allowSign);
     const size_t consumed = len - tok.remaining().length();
-    printf("Tokenizer::int64 -> %d result=%lld consumed=%zu\n", ok, (long long)result, consumed);
+    if (!quiet) printf("Tokenizer::int64 -> %d result=%lld consumed=%zu\n", ok, (long long)result, consumed);
+    if (quiet) return (ok != specOk || (ok && ((ri128)result != (neg ? -(ri128)v : (ri128)v) || consumed != p + K)) || (!ok && (result != 0x5a5a5a5a5a5a5a5aL || consumed != 0))) ? 1 : 0;
     if (ok != specOk) RP_FAIL("success=%d but the reference says %d", ok, specOk);
     if (ok && (ri128)result != (neg ? -(ri128)v : (ri128)v)) RP_FAIL("result is not the exact value");
     if (ok && consumed != p + K) RP_FAIL("consumed %zu, value has prefix %zu + %zu digits", consumed, p, K);
     if (!ok && (result != 0x5a5a5a5a5a5a5a5aL || consumed != 0)) RP_FAIL("failure touched result or position");
     RP_OK("postconditions hold on this input");
+}
+
+static int replayInt64(const Cex &c)
+{
+    size_t len = (size_t)c.num("len", 0);
+    if (c.has("text")) len = c.kv.at("text").size();
+    const std::string in = inputBytes(c, "buf", len);
+    const int base = (int)c.num("base", 10);
+    const bool allowSign = c.num("allowSign", 0) != 0;
+    if (in.size() == len && len != 0) {
+        const int rc = runInt64(in, base, allowSign, false);
+        if (rc != 0) return rc;
+    } else
+        printf("counterexample carries no input bytes\n");
+    // A failed loop-invariant obligation starts from a havocked loop state: the verifier's "input" is then not a real
+    // failing input. Fall back to a fixed battery of boundary strings (every base and sign setting; inputs in the domain
+    // of known finding F1 -- accumulator == 2^63 after '-' -- are skipped). A failure here is reported as such.
+    static const char *const battery[] = {
+        "0", "7", "08", "0x", "0x1f", "0X7fffffffffffffff", "0x8000000000000000", "0x7fffffffffffffff0", "0xffffffffffffffff",
+        "9223372036854775807", "9223372036854775808", "9223372036854775810", "92233720368547758070", "92233720368547758080",
+        "18446744073709551615", "18446744073709551616", "18446744073709551617", "99999999999999999999", "000000000000000000000042",
+        "777777777777777777777", "1000000000000000000000", "10000000000000000000000", "0777777777777777777777", "7fffffffffffffff", "8000000000000000",
+        "80000000000000000", "7fffffffffffffffF", "-9223372036854775807", "-9223372036854775809", "-92233720368547758070", "-", "+", "+5", "-0x10", "12a", "zz"
+    };
+    for (const char *s : battery)
+        for (int b : {0, 8, 10, 16})
+            for (int sign = 0; sign < 2; ++sign)
+                if (runInt64(s, b, sign != 0, true, true) == 1) {
+                    runInt64(s, b, sign != 0, true, false);
+                    printf("(the failing input above is from the replay's boundary battery, not the verifier's counterexample)\n");
+                    return 1;
+                }
+    RP_OK("postconditions hold on the counterexample input and on the boundary battery");
 }
 
 struct Pre { size_t ws = 0, signlen = 0, K = 0; bool neg = false; ru128 v = 0; };
